@@ -65,6 +65,10 @@ def oracle(chk, name, src, c, o, stats):
     if (r1['result'], r1['from'], r1['err']) != (r2['result'], r2['from'], r2['err']):
         chk.violation('nondeterministic', what + ': two runs on fresh allocators differ: %s/%s vs %s/%s' % (
             machines_cpulist(r1['result']), machines_cpulist(r1['from']), machines_cpulist(r2['result']), machines_cpulist(r2['from'])), rp)
+    r3 = o.get('run3')
+    if r3 is not None and (r3['panic'] or (r1['result'], r1['from'], r1['err']) != (r3['result'], r3['from'], r3['err'])):
+        chk.violation('history-dependent', what + ': the allocator that served the earlier cases answers %s/%s%s, a fresh one %s/%s' % (
+            machines_cpulist(r3['result']), machines_cpulist(r3['from']), ' (panic)' if r3['panic'] else '', machines_cpulist(r1['result']), machines_cpulist(r1['from'])), rp)
     res, aft = set(r1['result']), set(r1['from'])
     if c['op'] == 'alloc':
         if n > len(frm):
